@@ -142,6 +142,33 @@ func (x *Exec) runProperty(prop, mapFile, tier, evDir, dump, known, replayDir st
 	os.MkdirAll(replayDir, 0o755)
 	violations := 0
 	var knownHit []string
+	// replay: the solvers' models talk about heap arrays and uninterpreted strings, not about Go values, and are not
+	// turned into inputs. Instead, once (and only once) an obligation that is not a listed finding has failed, a fixed
+	// battery of small scenarios is run through the public API of the working tree and of the pristine copy of the tree the
+	// contracts were verified on (replay/diff); the first scenario on which the two behave differently is attached to
+	// every violation of this run as its failing input. It decides nothing.
+	var diff map[string]interface{}
+	diffTried := false
+	failingInput := func() map[string]interface{} {
+		if !diffTried {
+			diffTried = true
+			if os.Getenv("GOVC_FAILFAST") == "" && os.Getenv("GOVC_NOREPLAY") == "" {
+				bc := exec.Command("/verif/replay/diff/run.sh")
+				bc.Env = append(os.Environ(), "VERIF_REPO="+x.repoDir)
+				if out, err := bc.Output(); err == nil {
+					lines := strings.Split(strings.TrimSpace(string(out)), "\n")
+					var res map[string]interface{}
+					if json.Unmarshal([]byte(lines[len(lines)-1]), &res) == nil {
+						diff = res
+					}
+				}
+			}
+		}
+		if d, _ := diff["differs"].(bool); d {
+			return diff
+		}
+		return nil
+	}
 	for _, s := range failed {
 		isKnown := false
 		for _, k := range findings {
@@ -160,7 +187,8 @@ func (x *Exec) runProperty(prop, mapFile, tier, evDir, dump, known, replayDir st
 			continue
 		}
 		violations++
-		rp := x.writeReplay(replayDir, prop, s)
+		fi := failingInput()
+		rp := x.writeReplay(replayDir, prop, s, fi)
 		fmt.Printf("FAILED %s (%d/%d path checks discharged)\n", s.Name, s.Proved, s.Checks)
 		for i, f := range s.Failed {
 			if i >= 2 {
@@ -168,7 +196,14 @@ func (x *Exec) runProperty(prop, mapFile, tier, evDir, dump, known, replayDir st
 			}
 			fmt.Printf("   %s at %s: %s\n", f.Status, f.Obl.Pos, strings.TrimSpace(firstLines(f.Obl.Src, 1)))
 		}
-		fmt.Printf("VIOLATION property=%s replay=%s no-failing-input-found\n", prop, rp)
+		if fi != nil {
+			if f, ok := fi["first"].(map[string]interface{}); ok {
+				fmt.Printf("   failing input (differential search against the verified tree): %v\n", f["scenario"])
+			}
+			fmt.Printf("VIOLATION property=%s replay=%s\n", prop, rp)
+		} else {
+			fmt.Printf("VIOLATION property=%s replay=%s no-failing-input-found\n", prop, rp)
+		}
 	}
 	// bounded stand-ins: labelled bounded everywhere, never added to the discharged count
 	var boundedRes []map[string]interface{}
@@ -326,7 +361,7 @@ func (x *Exec) relFiles() []string {
 	return out
 }
 
-func (x *Exec) writeReplay(dir, prop string, s *OblSummary) string {
+func (x *Exec) writeReplay(dir, prop string, s *OblSummary, failingInput map[string]interface{}) string {
 	name := prop + "-" + sanitizeFile(s.Name)
 	p := filepath.Join(dir, name+".json")
 	var checks []map[string]interface{}
@@ -358,6 +393,12 @@ func (x *Exec) writeReplay(dir, prop string, s *OblSummary) string {
 		"failing_checks":      checks,
 		"failing_input_found": false,
 		"note":                "no input replayed against the real code; the obligation passed on the unchanged tree and fails on this one",
+	}
+	if failingInput != nil {
+		doc["failing_input_found"] = true
+		doc["failing_input"] = failingInput["first"]
+		doc["failing_input_differing_scenarios"] = failingInput["differing_scenarios"]
+		doc["note"] = "the obligation passed on the unchanged tree and fails on this one; the failing input was found by a differential search (replay/diff: the same scenario program run on the verified tree and on this tree), not derived from the solver's model; it shows a behavioural difference, which is not necessarily the violation the obligation speaks of"
 	}
 	b, _ := json.MarshalIndent(doc, "", " ")
 	os.WriteFile(p, b, 0o644)
